@@ -182,7 +182,7 @@ func stReplay(raw json.RawMessage, idx int, tr *traceWriter) {
 		"loc": loc, "written": written && !(nextRan && !writtenAtNext), "next_ran": nextRan, "leaked": len(leaked), "panicked": panicked, "status": w.Code})
 }
 
-var stHostile = []string{"f", "d", "e", "x", "x", "g", "index", "pfx", "pfxx", "pfxf", "pfxd", "pfxe", "pfx.", "secret", "..", ".", "", "...", "%2e%2e", "..\\secret", "\x00", "f\x00", "d\x00",
+var stHostile = []string{"f", "d", "e", "x", "x", "g", "index", "pfx", "pfxx", "pfxf", "pfxd", "pfxe", "pfx.", ".pfx", "well-known", "secret", "..", ".", "", "...", "%2e%2e", "..\\secret", "\x00", "f\x00", "d\x00",
 	"..;", "F", "root", "~", "..%2f", "f ", " f", "\xff", "index.htm", strings.Repeat("a", 300), "..\\..\\secret", "secret\x00.txt"}
 
 func stGen(seed int64, n int, args []string, out *json.Encoder) {
@@ -190,11 +190,16 @@ func stGen(seed int64, n int, args []string, out *json.Encoder) {
 	for i := 0; i < n; i++ {
 		c := stCase{Method: []string{"GET", "GET", "HEAD", "POST", "PUT", "OPTIONS", "get", "BREW"}[rng.Intn(8)], Prefix: []string{}, Opt: 1 + rng.Intn(24)}
 		if rng.Intn(2) == 0 {
-			c.Prefix = []string{"pfx"}
+			// the prefix is compared as it is configured (only its slashes are normalised): a dot is a character like any other
+			c.Prefix = []string{[]string{"pfx", "pfx", ".pfx", "pfx.", ".well-known"}[rng.Intn(5)]}
 		}
 		k := rng.Intn(8)
 		if len(c.Prefix) > 0 && rng.Intn(3) > 0 {
-			c.Segs = append(c.Segs, "pfx")
+			first := c.Prefix[0]
+			if rng.Intn(4) == 0 {
+				first = strings.Trim(first, ".") // the look-alike without the dots
+			}
+			c.Segs = append(c.Segs, first)
 		}
 		for j := 0; j < k; j++ {
 			c.Segs = append(c.Segs, encBytes(stHostile[rng.Intn(len(stHostile))]))
